@@ -54,6 +54,8 @@ def run(ck, fx, cg, tier):
     ck.trusted_base = ["rustc resolution/type check", "fml-facts dumper", "MIR call graph", "std panics unwind (panic=unwind)",
                        "Result::expect/unwrap panic with a message on stderr and exit status 101"]
     main_dids = cg.dids_of(A.get("main"))
+    from .. import canary
+    canary.require(ck, {'R10.noexit0', 'Rx.propagate', 'R10.nounsafe'})
     ck.anchor("R10", "main", main_dids or None)
     reach = cg.reachable(main_dids)
     # ------------------------------------------------------------ propagate + censuses
@@ -187,7 +189,17 @@ def _render_guard(fx, cg, comp):
                     if x.get("k") == "Binary" and x["op"] in ("Gt", "Ge", "Lt", "Le") and ("depth" in str(x).lower()):
                         has_test = True
                 if has_test and (shared._is_failing_value(fx, n["then"]) or ("else" in n and shared._is_failing_value(fx, n["else"]))):
-                    return True, "on-path guard found in %s (membership/depth test whose failing branch returns Err)" % hb["path"], loc(n)
+                    # the guard state must be threaded through the whole cycle: no member of the component may
+                    # start from a fresh (empty) collection, otherwise a cycle through that member is never seen
+                    for d in comp:
+                        mb = fx.hir_by_did.get(d)
+                        if mb is None:
+                            continue
+                        for x, _ in walk_body(mb):
+                            if x.get("k") in ("Call", "MethodCall") and x.get("callee") and x["callee"].get("name") in ("new", "with_capacity", "default") and "HeapIndex" in (fx.ty(x) or ""):
+                                return False, ("%s is part of the rendering cycle and starts a FRESH guard collection (%s): a reference cycle that passes "
+                                               "through it is not detected and overflows the native stack" % (mb["path"], fx.ty(x))), loc(x)
+                    return True, "on-path guard found in %s (membership/depth test whose failing branch returns Err); guard state is created outside the cycle" % hb["path"], loc(n)
     where = loc(cg.bodies[comp[0]])
     return False, ("value rendering recurses through heap references read from mutable storage without an on-path/visited "
                    "guard or depth bound: a cyclic value (an array stored into itself) overflows the native stack (SIGABRT)"), where
